@@ -298,6 +298,7 @@ class Interp:
         self.yields, self.calls, self.labels = [], [], []
         self.outcomes, self.cops, self.subs = [], [], []
         self.substores = []
+        self.subloads = []
         self.astores = []         # (target node, symbol, state before the store, stored value) of attribute stores
         self.label_atoms = {}
         self.tuple_arity = {}
@@ -563,6 +564,8 @@ class Interp:
 
     def ev_subscript(self, node, st):
         base = node.value
+        if getattr(self, "record_subloads", False) and self.record:
+            self.subloads.append((node, st.copy()))
         if isinstance(base, ast.Name) and base.id not in self.fnlocals and isinstance(module_constant(base.id), ast.Dict):
             node = ast.copy_location(ast.Subscript(module_constant(base.id), node.slice, node.ctx), node)
             base = node.value
@@ -811,6 +814,8 @@ class Interp:
                     self.set_loc(f"popped({c}).0", arg[0][0], st)
             if op == "pop" and ar and ar > 1:
                 self.set_loc(f"popped({c}).0", Lin.sym(tops[0]), st)
+                for k_ in range(2, ar):
+                    self.set_loc(f"popped({c}).{k_}", Lin.sym(tops[k_]), st)
             if popped is not None:
                 st.assign(f"popped({c})", popped)
             else:
@@ -828,6 +833,8 @@ class Interp:
             if self.record:
                 (self.early_cops if self.early else self.cops).append((node, c, "pop", arg, st.copy()))
             st.enum_set(f"$trk({c})", {"0": "X"}.get(trk, "ERR"))
+            if op == "pop" and popped is not None and not (ar and ar > 1):
+                return Lin.sym(f"popped({c})")      # the value of `c.pop()`: the element just removed
             return NONE
         for a in node.args:
             self.ev(a, st)
